@@ -20,7 +20,8 @@ RULE = ('nested dictionaries: depth 0..4, 0..4 entries per level, keys drawn fro
         'for unflatten (conflicting paths in both orders).  pytrees: 0..5 leaves, ranks 1..4, sizes 0..4 '
         'along the axis, every axis position (positive and negative).  spectral: pairs of small grids '
         '(both transform implementations, equal / larger / mixed truncations, different verticals).  '
-        'dims: layers 1..5, time / sample / realization / user coordinates incl. collisions.  xarray: random '
+        'dims: layers 1..5, time / sample / realization / user coordinates incl. collisions with the level axis and '
+        'grids whose nodal shape equals the modal shape.  xarray: random '
         'coordinate systems (3 spacings, offsets, radii, sigma / layer / pressure verticals), tracer sets '
         'with random names, NaN / -0.0 / inf / denormal payloads.  A case is non-trivial when the structure '
         'has >= 2 entries or an empty branch, or when it is a validation case; distinct = distinct '
@@ -762,6 +763,9 @@ def run(ctx: common.Ctx):
       impl = impls[int(rng.integers(2))]
       M = int(rng.integers(2, 5))
       grid = small_grid(M, M + 1, impl)
+      if i % 8 == 7:   # nodal shape == modal shape: the names of one of the two are overwritten
+        grid = small_grid(M, M + 1, impl, *grid.modal_shape)
+        ctx.dist['dims:modal==nodal'] += 1
       layers = int(rng.choice([1, 1, 2, 3, 5]))
       coords = cs.CoordinateSystem(grid, sc.SigmaCoordinates.equidistant(layers))
       times = None if rng.random() < 0.3 else np.arange(int(rng.integers(1, 4)))
@@ -791,6 +795,10 @@ def run(ctx: common.Ctx):
       impl = impls[int(rng.integers(2))]
       M = int(rng.integers(2, 5))
       grid = small_grid(M, M + 1, impl)
+      ambiguous = i % 6 == 5
+      if ambiguous:   # nodal shape == modal shape (characterised by inferDims_modal_eq_nodal_collision)
+        grid = small_grid(M, M + 1, impl, *grid.modal_shape)
+        ctx.dist['data_to_xarray:modal==nodal'] += 1
       layers = int(rng.choice([1, 2, 3])) if i >= 3 else [1, 2, 1][i]
       coords = cs.CoordinateSystem(grid, sc.SigmaCoordinates.equidistant(layers))
       times = None if rng.random() < 0.3 else np.arange(int(rng.integers(1, 4)))
@@ -821,6 +829,10 @@ def run(ctx: common.Ctx):
             dict(**inp, ndim=len(full)), impl_s)
         if kind == 'nodal3d' and layers == 1 and st != 'ok':
           single_layer_hit.append(inp)
+        if ambiguous and layers != 1 and kind == 'modal3d':
+          # domain statement, replayed on the implementation: shape matching cannot tell the two bases apart
+          ctx.expect(st == 'ok' and ds['v'].dims[-2:] == ('lon', 'lat'), 'dims-modal-eq-nodal',
+                     'modal_shape == nodal_shape: 3-d modal data expected to be labelled (level, lon, lat)', inp)
   if single_layer_hit:
     ctx.fail('single-layer-nodal-3d',
              'data_to_xarray raises ValueError for 3-d nodal data (1, lon, lat) of a single-layer coordinate system: '
@@ -935,6 +947,15 @@ def run(ctx: common.Ctx):
         back = xu.coordinate_system_from_attrs(coords.asdict())
         why = same_discretisation(coords, back)
         ctx.expect(why is None, 'attrs-roundtrip', f'coordinate_system_from_attrs(coords.asdict()) differs: {why}', inp)
+      if coords.horizontal.modal_shape == coords.horizontal.nodal_shape:
+        # outside the domain of the labelling claim: axes are matched by shape, so with modal_shape == nodal_shape
+        # one basis takes the names of the other (theorem inferDims_modal_eq_nodal_collision, correspondence in D)
+        ctx.dist['coords:modal==nodal (labelling not claimed)'] += 1
+        if not any(n.startswith('domain: modal_shape == nodal_shape') for n in ctx.notes):
+          ctx.notes.append('domain: modal_shape == nodal_shape (e.g. M=5, L=7, 10x7 nodes, FastSphericalHarmonics) is '
+                           'outside the labelling / read-back claim: data_to_xarray matches axes by shape and labels '
+                           '3-d modal data (level, lon, lat) and 2-d nodal data as modal, silently')
+        continue
       # (2) model state -> dataset -> state
       nt = int(rng.integers(1, 4))
       times = np.arange(nt) * 0.5
